@@ -49,6 +49,10 @@ func c17scenario(kind, dir string, bound int, peerSlow bool, silent ...bool) *ex
 	if peerSilent {
 		name += " silent-peer"
 	}
+	ctxDeadline := len(silent) > 1 && silent[1]
+	if ctxDeadline {
+		name += " ctx-with-deadline"
+	}
 	packet := kind == "netctx.PacketConn"
 	sc := &explore.Scenario{Name: name, Bound: bound}
 	sc.Cfg.Horizon = 10 * time.Second
@@ -70,6 +74,11 @@ func c17scenario(kind, dir string, bound int, peerSlow bool, silent ...bool) *ex
 			w := wrapCtx(kind, a)
 			ctx1, cancel1 := zzvsched.WithCancel()
 			ctx2, _ := zzvsched.WithCancel()
+			if ctxDeadline {
+				// the context has a deadline an hour away but is cancelled long before it
+				ctx1.DL = zzvsched.Base.Add(time.Hour)
+				ctx2.DL = zzvsched.Base.Add(2 * time.Hour)
+			}
 			if dir == "write" {
 				msg1, msg2 := []byte("abcdef"), []byte("XY")
 				zzvsched.GoNamed("op", func() {
@@ -252,6 +261,7 @@ func init() {
 						out = append(out, c17scenario(k, d, b, true))
 					}
 					out = append(out, c17scenario(k, d, b, false, true))
+					out = append(out, c17scenario(k, d, b, false, true, true))
 				}
 			}
 			return out
